@@ -64,13 +64,16 @@ fn c09_mapped_user_all_prefixes() {
     truncated(&gen::IMG_MATRIX_USER_MAPPED, 0, gen::IMG_MATRIX_USER_MAPPED.len())
 }
 
-//@ c09_foreign_magic {"desc":"any 21-byte header different from the current model magic, followed by the valid body, is rejected","bounds":"359-byte image with a fully symbolic header","symbolic":"all 21 header bytes","functions":["Dictionary::read","Dictionary::read_common"],"fs":5000,"unwind":24,"unwindset":["memcmp:24"],"timeout":1200,"stubs":["alloc::fmt::format"]}
+//@ c09_foreign_magic {"desc":"any 21-byte header different from the current model magic, followed by the valid body, is rejected","bounds":"21-byte header, fully symbolic, different from the magic; nothing after it","symbolic":"all 21 header bytes","functions":["Dictionary::read","Dictionary::read_common"],"fs":5000,"unwind":24,"unwindset":["memcmp:24"],"timeout":1200,"stubs":["alloc::fmt::format"]}
 #[cfg(kani)]
 #[kani::proof]
 #[kani::stub(alloc::fmt::format, crate::c06::stub_format)]
 fn c09_foreign_magic() {
     const MAGIC: &[u8] = b"VibratoTokenizer 0.5\n";
-    let mut img = gen::IMG_MATRIX;
+    // the body is irrelevant on every path where the header differs from the magic (the
+    // reader returns before touching it); offering only the header keeps the infeasible
+    // "magic matched" path short
+    let mut img = [0u8; 21];
     let mut same = true;
     for i in 0..21 {
         let b: u8 = kani::any();
@@ -80,7 +83,7 @@ fn c09_foreign_magic() {
         }
     }
     kani::assume(!same);
-    let r = Dictionary::read(ByteReader::new(&img, img.len()));
+    let r = Dictionary::read(ByteReader::hard(&img, img.len()));
     assert!(r.is_err(), "an image with a foreign magic was loaded");
     kani::cover!(img[0] == b'V' && img[19] == b'4');
     core::mem::forget(r);
@@ -91,7 +94,13 @@ fn c09_foreign_magic() {
 #[kani::proof]
 #[kani::stub(alloc::fmt::format, crate::c06::stub_format)]
 fn c09_header_truncated() {
-    truncated(&gen::IMG_MATRIX, 0, 21)
+    // only the 21 header bytes are offered: symex cannot know that a cut inside the header never
+    // reaches the body, and would otherwise decode the whole body under an infeasible guard
+    let mut hdr = [0u8; 21];
+    for i in 0..21 {
+        hdr[i] = gen::IMG_MATRIX[i];
+    }
+    truncated(&hdr, 0, 21)
 }
 
 use bincode::{Decode, Encode};
@@ -119,29 +128,38 @@ fn c09_u31_decode_range() {
     core::mem::forget(t);
 }
 
-//@ c09_scorer_decode_consistency {"desc":"the Scorer decoder rejects images whose check and cost arrays differ in length (decoder-side consistency check) and accepts consistent ones","bounds":"bases len 1, checks len 2, costs len 1..3","symbolic":"array contents, costs length","functions":["Scorer::decode"],"unwind":8,"timeout":900}
+//@ c09_scorer_decode_consistency {"desc":"the Scorer decoder rejects images whose check and cost arrays differ in length (decoder-side consistency check) and accepts consistent ones","bounds":"bases len 1, checks len 2, costs len 1..3","symbolic":"array contents, costs length","functions":["Scorer::decode"],"unwind":14,"fs":5000,"timeout":900}
 #[cfg(kani)]
 #[kani::proof]
 fn c09_scorer_decode_consistency() {
     let ncost = 1 + any_below(3);
-    let bases: Vec<u32> = vec![kani::any()];
-    let checks: Vec<u32> = vec![kani::any(), kani::any()];
-    let mut costs: Vec<i32> = Vec::with_capacity(3);
-    for i in 0..3 {
-        if i < ncost {
-            costs.push(kani::any());
+    // bincode image written by hand (fixed-int little endian): Vec<u32> bases (1), Vec<u32>
+    // checks (2), Vec<i32> costs (ncost); lengths are concrete bytes, contents symbolic
+    let mut buf = [0u8; 48];
+    buf[0] = 1;
+    for i in 8..12 {
+        buf[i] = kani::any();
+    }
+    buf[12] = 2;
+    for i in 20..28 {
+        buf[i] = kani::any();
+    }
+    let mut total = 36;
+    for c in 1..4 {
+        if c == ncost {
+            buf[28] = c as u8;
+            total = 36 + 4 * c;
         }
     }
-    let mut buf = [0u8; 64];
-    let n = match bincode::encode_into_slice((&bases, &checks, &costs), &mut buf, bincode_config()) {
-        Ok(n) => n,
-        Err(_) => unreachable!(),
-    };
-    let r: Result<(Scorer, usize), _> = bincode::decode_from_slice(&buf[..n], bincode_config());
-    assert!(r.is_ok() == (ncost == 2), "Scorer image with inconsistent arrays accepted (or consistent one rejected)");
+    for i in 36..48 {
+        buf[i] = kani::any();
+    }
+    let mut r = ByteReader::new(&buf, total);
+    let d: Result<Scorer, _> = bincode::decode_from_std_read(&mut r, bincode_config());
+    assert!(d.is_ok() == (ncost == 2), "Scorer image with inconsistent arrays accepted (or consistent one rejected)");
     kani::cover!(ncost == 3);
     kani::cover!(ncost == 2);
-    core::mem::forget(r);
+    core::mem::forget(d);
 }
 
 //@ c09_twin {"expect":"fail","desc":"vacuity twin: claims every 4-byte input is rejected by the U31 decoder","bounds":"4 bytes","symbolic":"the bytes","functions":["U31::decode"],"unwind":8,"timeout":600,"covers":"none","stubs":["alloc::fmt::format"]}
